@@ -29,6 +29,17 @@ CLAIMED['C17'] = dict(
     technique='contract-based deductive verification: Python ast -> VC generator with loop invariants -> z3 (cvc5 fallback)',
     design='3 C17')
 
+CLAIMED['C12'] = dict(
+    text='Third sentence of C12 only (equal type nodes hash equally). Lemma a == b ==> hash(a) == hash(b) proved for all '
+         'inputs over the real bodies of every hand-written __eq__/__hash__ in pytd.py (_SetOfTypes/UnionType/IntersectionType, '
+         'ClassType, TypeDeclUnit), plus a frame obligation that no other node class defines its own equality or hash. '
+         'The msgspec-generated pairs of the remaining classes and the encode/decode round trip (first two sentences) are NOT decided.',
+    note='Trusted: engine/, z3, A-LIB (hash(frozenset)/hash(tuple)/hash(str) are functions of the value), A-MSGSPEC '
+         '(generated structural eq/hash, third-party C), Class.__hash__ (delegates to msgspec). A bounded native sweep over '
+         'generated nodes of every class samples the assumed part (labelled bounded).',
+    technique='contract-based deductive verification: proof harness (lemma) over the inlined real methods -> z3; frame scan of the AST',
+    design='3 C12')
+
 NOT_APPLICABLE = {
     'C01': 'whole abstract interpreter vs CPython execution: no function-level contract expresses over-approximation of execution (DESIGN 4)',
     'C02': 'decided by matcher.py (2000 lines) on live VM values; the inhabitant oracle quantifies over programs, not one call (DESIGN 4)',
